@@ -50,6 +50,12 @@ struct radio_state
     bool            refuse_disarm = false;          // buggify: the hardware is too close to the event
     std::uint64_t   scheduled_events = 0, disarmed = 0, adv_schedule_seq = 0;
 
+    // link encryption as the radio sees it (only used by radios with hardware_supports_encryption; a flag and a key, no cipher:
+    // the air of the simulated world decides from flag and key of both sides whether a PDU can be decoded)
+    bool            rx_enc = false, tx_enc = false, key_set = false;
+    std::array< std::uint8_t, 16 > enc_key{};
+    unsigned        enc_setups = 0, rx_enc_starts = 0;
+
     // type erased access to the layers above and below
     std::function< void( const read_buffer& ) >             cb_adv_received;
     std::function< void() >                                 cb_adv_timeout, cb_timeout, cb_try_event_cancelation;
